@@ -284,6 +284,8 @@ Definition apply_builtin (f : builtin) (args : list value) : result :=
   | BHasattr, [v; VStr a] => py_hasattr v a
   | BHasattr, [_; _] => Raise TypeError
   | BCallable, [v] => Val (VBool (py_callable v))
+  | BBool, [v] => Val (VBool (truthy v))
+  | BBool, [] => Val (VBool false)
   | _, _ => Raise TypeError                           (* wrong number of arguments *)
   end.
 
